@@ -55,3 +55,11 @@ def register(claim):
           "an encoding error cannot fall through to the write.",
           NOTE_COMMON + " That an independent parser accepts every frame for every value (SendingTime format, SOH inside values) is not decided.",
           "DESIGN.md#c02")
+
+    claim("C18", "def-use of map keys (normalisation), CFG reachability (no raise after mutation), guard extraction around the store, sibling error mapping",
+          "Static over all operation sequences: every keyed access to the tag map goes through str(tag) defined before the use; refused "
+          "writes raise before any mutation; the store is guarded by the duplicate test or the class-marker test and stores str(value) "
+          "without re-inserting; typed lookups map each case to its documented error with a two-sided index check and first-match scan; "
+          "the dict-equality ignore set is exactly {8,9,10,35}; nothing reorders the map or the group lists.",
+          NOTE_COMMON + " Known finding: container == container goes through a non-injective rendering. Step-by-step agreement with a reference model and pickling are not decided.",
+          "DESIGN.md#c18")
